@@ -787,11 +787,25 @@ Qed.
 Lemma get_trace_through_mask (Hd : hdr) (mn : Z -> outcome Z) i c lo hi :
   (rd_blockshape0_v1 Hd =? 1) = false ->
   (rd_tracecount Hd =? rd_n_ilines Hd * rd_n_xlines Hd) = false ->
+  0 <= i < rd_tracecount Hd ->
   mn i = Return c ->
   rd_get_trace mn Hd i lo hi false = rd_get_trace mn Hd c lo hi true.
 Proof.
-  intros N2 US M. unfold rd_get_trace. rewrite N2.
+  intros N2 US Hi M. unfold rd_get_trace. rewrite N2.
+  replace ((0 <=? i) && (i <? rd_tracecount Hd)) with true by lia.
   destruct lo, hi; cbv iota; rewrite US; cbn [negb andb]; cbv iota; rewrite M; cbn [bind]; reflexivity.
+Qed.
+
+(* an ordinal outside [0, tracecount) is refused before the mask is consulted (D37 repair) *)
+Lemma get_trace_ordinal_oob (Hd : hdr) (mn : Z -> outcome Z) i lo hi :
+  (rd_blockshape0_v1 Hd =? 1) = false ->
+  (rd_tracecount Hd =? rd_n_ilines Hd * rd_n_xlines Hd) = false ->
+  ~ (0 <= i < rd_tracecount Hd) ->
+  rd_get_trace mn Hd i lo hi false = Raise IndexErr.
+Proof.
+  intros N2 US Hi. unfold rd_get_trace. rewrite N2.
+  replace ((0 <=? i) && (i <? rd_tracecount Hd)) with false by lia.
+  destruct lo, hi; cbv iota; rewrite US; cbn [negb andb]; cbv iota; reflexivity.
 Qed.
 
 (* ================================================================ D20: a survey containing inline 0 *)
